@@ -650,3 +650,12 @@ def m_str_repeat(ctx, cty, a):
     for _ in range(n):
         out = out.concat(s)
     return StringObj(out)
+
+
+@model("core::str::<impl str>::split_at")
+def m_str_split_at(ctx, cty, a):
+    s = as_sstr(a[0])
+    n = ctx.concretize(a[1], "split_at")
+    if n > len(s):
+        raise PanicPath("byte index out of bounds in split_at", "bounds")
+    return tup(s.slice(0, n), s.slice(n, len(s)))
